@@ -82,9 +82,9 @@ def parse(lines, t):
             m = re.fullmatch(r"(sub|add) sp, sp, #(\d+)", ln)
             if m:
                 tok = f"{m.group(1)}:{m.group(2)}"
-            m = re.fullmatch(r"mov (\w+), #0x(-?[0-9a-f]+)", ln)
+            m = re.fullmatch(r"mov (\w+), #(-?)0x([0-9a-f]+)", ln)
             if m:
-                tok = f"movsmall:{idx[m.group(1)]}={int(m.group(2), 16)}"
+                tok = f"movsmall:{idx[m.group(1)]}={int(m.group(2) + m.group(3), 16)}"
             m = re.fullmatch(r"movz (\w+), #0x([0-9a-f]+)", ln)
             if m:
                 tok = f"movz:{idx[m.group(1)]}={int(m.group(2), 16)}"
@@ -190,6 +190,26 @@ def simulate(toks, t, case):
     return errs
 
 
+def assembles(asm, t, ntoks):
+    """the emitted text goes through the library's assembler for the target, as RewritingContext would do it, and an independent
+    disassembler finds one instruction per emitted line; returns a complaint or None"""
+    import capstone
+    from gtirb_rewriting.assembler import Assembler
+    from gtirb_rewriting.assembly import X86Syntax
+    try:
+        a = Assembler(t["m"], allow_undef_symbols=True)
+        a.assemble(asm + "\n", X86Syntax.INTEL)
+        data = bytes(a.finalize().text_section.data)
+    except Exception as e:   # noqa
+        return f"the emitted code does not assemble ({type(e).__name__})"
+    md = capstone.Cs(*((capstone.CS_ARCH_ARM64, capstone.CS_MODE_ARM) if t["fam"] == "a64" else
+                       (capstone.CS_ARCH_X86, capstone.CS_MODE_64 if t["W"] == 8 else capstone.CS_MODE_32)))
+    ins = list(md.disasm(data, 0))
+    if sum(i.size for i in ins) != len(data) or len(ins) != ntoks:
+        return f"the assembled code decodes to {len(ins)} instructions, {ntoks} were emitted"
+    return None
+
+
 def run_case(case):
     from unittest import mock
     import gtirb_rewriting
@@ -207,7 +227,16 @@ def run_case(case):
     toks = parse(asm.splitlines(), t)
     if any(x.startswith("?") for x in toks):
         return " ".join(toks), ["emitted an instruction form outside the modelled vocabulary: " + str([x for x in toks if x.startswith("?")][:2])]
-    return " ".join(toks), simulate(toks, t, case)
+    errs = simulate(toks, t, case)
+    w = assembles(asm, t, len(toks))
+    if w:
+        # known finding: x86-64 has no push of a 64-bit immediate; a stack argument outside the sign-extended 32-bit range is emitted
+        # as `push <value>` all the same
+        nreg = len(case["regs"])
+        wide = t["fam"] == "x86" and t["W"] == 8 and "does not assemble" in w and \
+            any(a[0] == "i" and not -2 ** 31 <= a[1] < 2 ** 31 for a in case["args"][nreg:])
+        errs = errs + ["FINDING:C17-x86-64-stack-argument-beyond-imm32" if wide else w]
+    return " ".join(toks), errs
 
 
 def case_line(case):
@@ -253,12 +282,12 @@ class C17(Prop):
         "translator/gen_calls.py: utils.align_address regenerated from source; pins of _create_passed_args, both get_asm, _load_immediate, _load_symbol, __init__",
         "hand model Calls/Model.v (code generators + a word-granular machine for the emitted forms; `mov reg, sym` / `push sym` are loads, "
         "cross-checked on every run by assembling the form with the real assembler and decoding it with capstone)",
-        "text -> token parse of harness/c17.py; extraction ExtrOcamlBasic only; OCaml driver",
+        "text -> token parse of harness/c17.py (the emitted text is also assembled with the library's assembler for the target and the "
+        "bytes decoded with capstone: one instruction per emitted line); extraction ExtrOcamlBasic only; OCaml driver",
     ]
     assumptions = ["the stack pointer plus the reported adjustment is aligned before the patch (align_stack or an aligned call site)",
                    "alignment is a power of two; convention registers are pairwise distinct",
-                   "immediates the assembler refuses (push imm64, ARM64 mov #0x-5) are refusals, not violations; they are only compared as text",
-                   "ARM64 argument placement is covered by correspondence + oracle; the theorems cover immediates, symbol addresses, sp and alignment"]
+                   "IA32: integer arguments are compared modulo 2^32"]
     level_rule = ("cases = 4 targets x (default + random conventions) x 0..16 arguments (ints at immediate boundaries, full 64-bit range, symbols) x "
                   "reported adjustments; distinct = distinct case line; non-trivial = code was emitted (not a refusal)")
 
